@@ -62,17 +62,17 @@ func hookHitCounts() map[string]int {
 
 func c11RaceCases(tier string) int {
 	if tier == "thorough" {
-		return 240 + 60
+		return 480 + 120
 	}
-	return 32 + 8
+	return 96 + 24
 }
 
 func c11SharedClientRaceCases(tier string) int { return c11RaceCases(tier) - c11OwnClientRaceCases(tier) }
 func c11OwnClientRaceCases(tier string) int {
 	if tier == "thorough" {
-		return 60
+		return 120
 	}
-	return 8
+	return 24
 }
 
 // ownClients: every goroutine has its OWN client (as tests running with t.Parallel() do). The race detector
@@ -229,16 +229,16 @@ func (p *c11r) RunCase(ctx *runner.Ctx) runner.CaseResult {
 
 func c11ConsCases(tier string) int {
 	if tier == "thorough" {
-		return 840
+		return 2800
 	}
-	return 140
+	return 420
 }
 
 func c11LinCases(tier string) int {
 	if tier == "thorough" {
-		return 20000
+		return 40000
 	}
-	return 2000
+	return 6000
 }
 
 func (p *c11) NumCases(tier string) int { return c11ConsCases(tier) + c11LinCases(tier) }
@@ -423,6 +423,9 @@ func (p *c11) conservation(x *res, ctx *runner.Ctx) {
 		if writers < 1 {
 			writers = 1
 		}
+		if writers > 8 {
+			writers = 8 // the table stays below ~1200 items: every put re-sorts the keys, every scan visits them all
+		}
 		if !parallel(n, func(i int) {
 			if i < writers {
 				for b := 0; b < 6; b++ {
@@ -434,7 +437,11 @@ func (p *c11) conservation(x *res, ctx *runner.Ctx) {
 				}
 				return
 			}
-			for s := 0; s < 12; s++ {
+			nscans := 12
+			if n > 16 {
+				nscans = 4
+			}
+			for s := 0; s < nscans; s++ {
 				index := ""
 				if s%2 == 1 {
 					index = "gsi1"
@@ -471,7 +478,11 @@ func (p *c11) conservation(x *res, ctx *runner.Ctx) {
 		var torn int64
 		var tornDetail atomic.Value
 		if !parallel(n, func(i int) {
-			switch i % 4 {
+			role := i % 4
+			if i >= 16 {
+				role = 2 + i%2 // at most 8 batch writers; the other goroutines make single-item calls and scans
+			}
+			switch role {
 			case 0, 1:
 				for b := 0; b < 6; b++ {
 					batch := []adapt.BatchEntry{}
